@@ -211,6 +211,7 @@ def run_path(h, params, prefix, timeout_ms, stats, viol_budget, selfcheck):
         extra = [] if cand is False else [z3.Not(cand)]
         for e_ in extra:
             c._activate(e_)
+        tie_only = False
         for attempt in range(4):
             if attempt == 1 and c.ties:
                 # refinement: exclude exact rounding ties (DESIGN 2.4.2)
@@ -219,6 +220,8 @@ def run_path(h, params, prefix, timeout_ms, stats, viol_budget, selfcheck):
                 if r == "sat":
                     extra.append(noties)
                 else:
+                    if r == "unsat":
+                        tie_only = True  # the candidate exists only where some round() sits exactly on a tie
                     r = c.check(*extra)
             else:
                 r = c.check(*extra)
@@ -248,6 +251,11 @@ def run_path(h, params, prefix, timeout_ms, stats, viol_budget, selfcheck):
             viol_budget[key] = viol_budget.get(key, 0) + 1
             out["violations"].append(confirmed)
             rc[1] += 1
+        elif tie_only and len(tried) >= 2:
+            # satisfiable only at exact decimal rounding ties, where the relational round() admits both neighbours while the
+            # real round() picks one; the tried tie models do not reproduce on the real code: not a violation
+            out["discharged"] += 1
+            out["tie_only"] = out.get("tie_only", 0) + 1
         else:
             out["unconfirmed"].append({"harness": h.name, "obligation": name, "tags": _json_safe(tags),
                                        "inputs": describe_values(c, tried[0]) if tried else None})
@@ -328,6 +336,7 @@ def _work(task):
         for k in ("obligations", "discharged", "nontrivial"):
             agg[k] += r[k]
         agg["violations"] += r["violations"]
+        agg["tie_only"] = agg.get("tie_only", 0) + r.get("tie_only", 0)
         agg["unconfirmed"] += r["unconfirmed"]
         agg["inconclusive"] += r["inconclusive"]
         agg["covers"].update(r["covers"] or [])
@@ -397,6 +406,7 @@ def explore(h, tier, seed, pool, nworkers, log=print):
                 tot[k] += r[k]
             tot["solver_s"] += r["solver_s"]
             tot["violations"] += r["violations"]
+            tot["tie_only"] = tot.get("tie_only", 0) + r.get("tie_only", 0)
             tot["unconfirmed"] += r["unconfirmed"][:5]
             tot["inconclusive"] += r["inconclusive"][:5]
             tot["covers"].update(r["covers"])
@@ -575,6 +585,7 @@ def run_property(pid, harnesses, tier, seed, meta):
             "obligation_reach": {k: v[0] for k, v in sorted(t["reach"].items())[:60]},
             "traces_validated_against_impl": t["selfchecks"], "outside_claim": h.outside, "shims": t["shims"],
             "selfcheck_boundary_disagreements": t.get("selfcheck_bad_n", 0),
+            "tie_only_candidates_not_reproduced": t.get("tie_only", 0),
             "max_paths": h.max_paths[tier], "per_query_timeout_ms": h.timeout_ms[tier],
         }
         for s in t["samples"][:3]:
